@@ -47,10 +47,11 @@ def run(ctx):
     ctx.extra["fast_path_fraction_where_it_applies"] = round(fast / max(total, 1), 3)
     ctx.extra["fast_path_instances"] = total
     ctx.extra["fast_path_fraction_overall"] = round(allfast / max(allr, 1), 3)
-    if total < 50 or fast / total < 0.9:
-        raise tlc.MachineryError("vacuous: the numpy engine produced only %d of the %d results where it applies" % (fast, total))
     fails, _ = ctx.validate("Trace_Read", {"traces": [[e] for e in events]})
     lastext.judge(ctx, events, meta, fails)
+    # vacuity guard -- unless the run already reports violations (a tree that never takes the fast path is then judged by those)
+    if not [f for f in fails if not f[2].startswith(("Harness.", "Drift."))] and (total < 50 or fast / total < 0.9):
+        raise tlc.MachineryError("vacuous: the numpy engine produced only %d of the %d results where it applies" % (fast, total))
     ctx.sample({"tag": meta[len(meta) // 2]["tag"], "concrete": meta[len(meta) // 2]["concrete"],
                 "engines": events[len(events) // 2]["fastpath"]})
     ctx.assumptions += ["plain decimal tokens, blank/tab separated, one depth step per line, null_policy strict, dtypes auto",
